@@ -173,7 +173,7 @@ PROPS = {
                       "refused). For each, boundary and swept field values are rendered, parsed by the real TimePointParser under varying "
                       "configurations (expanded digits, basic-only, assumed / unknown / system zone), and TLC requires: the text is what the spec "
                       "renders, the decoded representation/fields/fraction/offset are exactly the generated ones, and dump-as-parsed reproduces the input.",
-        "drivers": ["c07"], "mc": [{"module": "MC_C07.tla", "cfg": "MC_C07.cfg"}], "expect_ops": ["ParseTP"],
+        "drivers": ["c07", "c07t"], "mc": [{"module": "MC_C07.tla", "cfg": "MC_C07.cfg"}], "expect_ops": ["ParseTP", "ParseTrunc"],
         "rule": "one case = one text under one parser configuration; all cases use boundary-biased values (non-trivial)",
         "exhaustive_part": {"quick": "all form combinations x 30 value draws; every year 0000-9999 in CCYY-MM-DD", "thorough": "all form combinations x 500 draws; every year 0000-9999 in 6 forms; years -20000..20000 with 2 extra digits"},
         "assumptions": TRUST,
